@@ -20,6 +20,14 @@ import Hw.Topo.StageDecomp
 import Hw.Topo.StageTyping
 import Hw.Topo.StageSetsOK
 import Hw.Topo.StageRemoveEmptyKept
+import Hw.Topo.StageSymmetricLemmas
+import Hw.Topo.StageMemoryDump
+import Hw.Topo.StageUnique
+import Hw.Topo.RenderCover
+import Hw.Topo.StageSetsMerge
+import Hw.Topo.RestrictMerge
+import Hw.Topo.StageNuma
+import Hw.Topo.RenderTop
 namespace Hw.Props.C01
 open Hw.Topo
 
@@ -480,6 +488,219 @@ example : totalT (fun _ => W64 - 1) exMemT = W64 - 3 := by decide +kernel
 def exGrp : Tree := exN 1 tMACHINE 3 0 [exN 2 tGROUP 3 0 [exN 3 tPACKAGE 3 0 [exN 4 tGROUP 1 0 [exN 5 tPU 1 0 [] [] [] []] [] [] [],
   exN 6 tGROUP 2 0 [exN 7 tPU 2 0 [] [] [] []] [] [] []] [] [] []] [] [] []] [] [] []
 example : setGroupDepth exGrp = [(2, 0), (4, 1), (6, 1)] ∧ (connectLevels exGrp).length = 5 := by decide +kernel
+
+
+/-! ### hwloc_propagate_symmetric_subtree (Hw/Topo/StageSymmetric.lean; `dep` = the depth field, any function) -/
+
+/-- **the loop**: the `while (1)` walk over the array of children (fuel = number of objects below, which always suffices) answers
+"identical" iff every entry has the same first-children spine — (depth, arity) of the entry, of its first child, of the first child of
+that, … down to an object without normal child — as entry 0 -/
+theorem C01_symmetric_walk (dep : RObj → Int) (arr : List Tree) :
+    walk dep (sizeL arr) arr = true ↔ ∀ a ∈ arr, spineT dep a = spineL dep arr :=
+  walk_iff dep _ _ (spineL_length_le dep arr)
+
+/-- **the rule** for every object of every tree: `symmetric_subtree` is set iff the object has no normal child, or all normal children
+are symmetric and have the same first-children spine as the first child (trivially true for a single child: the `arity == 1` shortcut) -/
+theorem C01_symmetric_rule (dep : RObj → Int) (o : RObj) (ns ms ios mis : List Tree) :
+    symT dep (.node o ns ms ios mis) = true ↔
+      ns = [] ∨ ((∀ c ∈ ns, symT dep c = true) ∧ ∀ c ∈ ns, spineT dep c = spineL dep ns) := symT_iff dep o ns ms ios mis
+
+/-- leaves (PUs) are symmetric whatever memory / I/O / Misc children they carry -/
+theorem C01_symmetric_leaf (dep : RObj → Int) (o : RObj) (ms ios mis : List Tree) : symT dep (.node o [] ms ios mis) = true :=
+  symT_leaf dep o ms ios mis
+
+/-- the flags of ALL visited objects depend only on the normal-children skeleton: two trees that differ in memory, I/O or Misc children
+(anywhere) get the same flags -/
+theorem C01_symmetric_ignores_other_children (dep : RObj → Int) (t t' : Tree) (h : skelT t = skelT t') :
+    symsT dep t = symsT dep t' := symsT_congr_skel dep t t' h
+
+/-- **meaning**: the flag is set iff the subtree is uniform row by row: every object at distance k (through normal children) has the
+depth and arity at position k of the spine and every branch ends on the last row -/
+theorem C01_symmetric_meaning (dep : RObj → Int) (t : Tree) : symT dep t = true ↔ uniformT dep t (spineT dep t) :=
+  symT_iff_uniform dep t
+
+/-- **in the composition**: on the tree `t2` that level merging leaves (any tree), the stage writes exactly one flag per normal object, in
+depth-first order, and the flag of each visited subtree `s` is the rule / the uniformity of `s`, with the depths of `connectLevels t2` -/
+theorem C01_pipeline_symmetric (i : In) (dc : Deco) (filters : List Nat) (t2 : Tree) (_h : pipeline i dc filters = some t2) :
+    symmetricStage t2 = (subsN t2).map (fun s => (s.obj.gp, symT (depthIn (connectLevels t2)) s)) ∧
+    (symmetricStage t2).length = sizeT (skelT t2) ∧
+    ∀ s ∈ subsN t2, (symT (depthIn (connectLevels t2)) s = true ↔
+      uniformT (depthIn (connectLevels t2)) s (spineT (depthIn (connectLevels t2)) s)) :=
+  ⟨symsT_eq_map _ t2, symsT_length _ t2, fun s _ => symT_iff_uniform _ s⟩
+
+/-- non-vacuity: Machine > 2 Packages; package gp 2 has two Cores with 1 PU each, package gp 3 has two Cores with 1 and 2 PUs: gp 3 and
+the Machine are not symmetric, everything else is; with the second PU of gp 9 removed everything is symmetric; a NUMA node and a Misc
+object change nothing -/
+def exSymA : Tree := exN 1 tMACHINE 0 0 [exN 2 tPACKAGE 0 0 [exN 4 tCORE 0 0 [exN 5 tPU 0 0 [] [] [] []] [] [] [], exN 6 tCORE 0 0 [exN 7 tPU 0 0 [] [] [] []] [] [] []] [] [] [],
+  exN 3 tPACKAGE 0 0 [exN 8 tCORE 0 0 [exN 10 tPU 0 0 [] [] [] []] [] [] [], exN 9 tCORE 0 0 [exN 11 tPU 0 0 [] [] [] [], exN 12 tPU 0 0 [] [] [] []] [] [] []]
+    [exN 20 tNUMA 0 0 [] [] [] []] [] [exLeaf 21 tMISC]] [] [] []
+example : symmetricStage exSymA = [(1, false), (2, true), (4, true), (5, true), (6, true), (7, true), (3, false), (8, true), (10, true),
+    (9, true), (11, true), (12, true)] ∧ (connectLevels exSymA).length = 4 ∧
+    spineT (depthIn (connectLevels exSymA)) exSymA = [(0, 2), (1, 2), (2, 1), (3, 0)] := by decide +kernel
+example : ∃ t2, pipeline exIn exDc (List.replicate 20 0) = some t2 ∧ (symmetricStage t2).length = 8 := ⟨_, rfl, by decide +kernel⟩
+/-- the depth matters: two children of equal arity but different depth (a Core next to an L2 holding a Core) are not "same shape" -/
+def exSymB : Tree := exN 1 tMACHINE 0 0 [exN 2 tCORE 0 0 [exN 3 tPU 0 0 [] [] [] []] [] [] [],
+  exN 4 5 0 0 [exN 5 tCORE 0 0 [exN 6 tPU 0 0 [] [] [] []] [] [] []] [] [] []] [] [] []
+example : symmetricStage exSymB = [(1, false), (2, true), (3, true), (4, true), (5, true), (6, true)] := by decide +kernel
+
+
+/-! ### dump-form clauses (through `mkAux`) and uniqueness clauses for the composed pipeline -/
+
+/-- **total-memory in dump form**, any typed tree: if the NUMA local memory fits in 64 bits and the carried fields hold the output of
+`propagate_total_memory` (`MemEx`: total_memory = `totalT` of the subtree, attrs[0] of a NUMA node = its local memory), every object of
+`render t` satisfies the WF clause `total-memory` exactly as the oracle evaluates it (through the `totSum` fold of `mkAux`) -/
+theorem C01_total_memory_dump_clause (loc : RObj → Nat) (t : Tree) (ht : typedT t = true) (hb : sumLocalT loc t < W64)
+    (hdr : Hdr) (ex : RObj → Extra) (hex : MemEx loc t ex) (o : Obj) (ho : o ∈ (render t hdr ex).objs) :
+    objClause "total-memory" (render t hdr ex) (mkAux (render t hdr ex)) o = true :=
+  render_total_memory loc t ht hb hdr ex hex o ho
+
+/-- … and `MemEx` holds for the fields written from the stage's own output (`exOfMem`: total by gp_index) whenever gp_index values are
+pairwise distinct -/
+theorem C01_total_memory_fields (loc : RObj → Nat) (t : Tree) (base : RObj → Extra) (hu : ((objsT t).map (·.gp)).Nodup) :
+    MemEx loc t (exOfMem loc t base) := by
+  apply memEx_exOfMem
+  rw [← occs_map_obj, List.map_map] at hu
+  exact hu
+
+/-- **the composed pipeline, dump-form clauses**: with the hypotheses of `C01_pipeline_compose`, the dump rendered from the final tree
+`t2 = keepStructure filters t1` satisfies, for any header and carried fields: children-counts (every object; the four counters of
+`mkAux`), type-depth-inverse, levels-cover-objects; and total-memory (every object) when the local memory fits in 64 bits and the
+fields carry the output of propagate_total_memory. -/
+theorem C01_pipeline_dump_clauses (i : In) (dc : Deco) (filters : List Nat) (hdr : Hdr) (ex : RObj → Extra) (loc : RObj → Nat)
+    (hty : typedT (toTree dc (stage i).root) = true) (hroot : (toTree dc (stage i).root).obj.type = tMACHINE)
+    (t1 : Tree) (h1 : removeEmpty (toTree dc (stage i).root) = some t1) :
+    (∀ o ∈ (render (keepStructure filters t1) hdr ex).objs,
+      objClause "children-counts" (render (keepStructure filters t1) hdr ex) (mkAux (render (keepStructure filters t1) hdr ex)) o = true ∧
+      (sumLocalT loc (keepStructure filters t1) < W64 → MemEx loc (keepStructure filters t1) ex →
+        objClause "total-memory" (render (keepStructure filters t1) hdr ex) (mkAux (render (keepStructure filters t1) hdr ex)) o = true)) ∧
+    topClause "type-depth-inverse" (render (keepStructure filters t1) hdr ex) (mkAux (render (keepStructure filters t1) hdr ex)) = true ∧
+    topClause "levels-cover-objects" (render (keepStructure filters t1) hdr ex) (mkAux (render (keepStructure filters t1) hdr ex)) = true := by
+  have ht1 := removeEmpty_typed _ t1 h1 hty
+  have hn1 : isNormal t1.obj.type = true := by rw [ht1.2, hroot]; decide
+  have ht2 := typed_keepStructure filters t1 ht1.1 hn1
+  exact ⟨fun o ho => ⟨render_children_counts _ ht2.1 hdr ex o ho, fun hb hex => render_total_memory loc _ ht2.1 hb hdr ex hex o ho⟩,
+    render_type_depth_inverse _ hdr ex, render_levels_cover _ ht2.1 ht2.2 hdr ex⟩
+
+/-- **no stage creates an object**: for ANY key of an object that the complete-set update of a merge leaves alone (gp_index, type,
+os_index, cpuset, …), no key value occurs more often among the objects of the final tree than in the tree handed to `remove_empty` -/
+theorem C01_pipeline_no_new_object {α : Type} [DecidableEq α] (f : RObj → α) (hm : ∀ o co, f (absorb o co) = f co) (filters : List Nat)
+    (t0 t1 : Tree) (h1 : removeEmpty t0 = some t1) (a : α) :
+    cnt f a (objsT (keepStructure filters t1)) ≤ cnt f a (objsT t0) := nodup_pipeline f hm filters t0 t1 h1 a
+
+/-- **uniqueness clauses of the composed render**: if gp_index values (resp. PU os_index, NUMA os_index values) are pairwise distinct in
+the tree `t0` handed to `remove_empty`, the dump rendered from the final tree satisfies gp-index-unique (resp. pu-osindex-unique,
+numa-osindex-unique) -/
+theorem C01_pipeline_unique (filters : List Nat) (hdr : Hdr) (ex : RObj → Extra) (t0 t1 : Tree) (h1 : removeEmpty t0 = some t1) :
+    (((objsT t0).map (·.gp)).Nodup →
+      topClause "gp-index-unique" (render (keepStructure filters t1) hdr ex) (mkAux (render (keepStructure filters t1) hdr ex)) = true) ∧
+    ((((objsT t0).filter (fun o => o.type == tPU)).map (·.osidx)).Nodup →
+      topClause "pu-osindex-unique" (render (keepStructure filters t1) hdr ex) (mkAux (render (keepStructure filters t1) hdr ex)) = true) ∧
+    ((((objsT t0).filter (fun o => o.type == tNUMA)).map (·.osidx)).Nodup →
+      topClause "numa-osindex-unique" (render (keepStructure filters t1) hdr ex) (mkAux (render (keepStructure filters t1) hdr ex)) = true) := by
+  refine ⟨fun h => render_gp_unique _ (gp_nodup_of_cnt _ _ (fun k => nodup_pipeline (·.gp) (fun _ _ => rfl) filters t0 t1 h1 k) h) hdr ex,
+    fun h => ?_, fun h => ?_⟩
+  · rw [clause_pu_unique]; simp only [decide_eq_true_eq]; rw [render_os_of_type]
+    exact os_nodup_of_cnt tPU _ _ (fun k => nodup_pipeline tyOs (fun _ _ => rfl) filters t0 t1 h1 (tPU, k)) h
+  · rw [clause_numa_unique]; simp only [decide_eq_true_eq]; rw [render_os_of_type]
+    exact os_nodup_of_cnt tNUMA _ _ (fun k => nodup_pipeline tyOs (fun _ _ => rfl) filters t0 t1 h1 (tNUMA, k)) h
+
+/-- non-vacuity: `exMemT` (two NUMA nodes below a package, one behind a memory-side cache) rendered with the fields of the stage:
+all hypotheses hold and (evaluated) every object passes total-memory and children-counts -/
+example : typedT exMemT = true ∧ sumLocalT exMemLoc exMemT < W64 ∧ ((objsT exMemT).map (·.gp)).Nodup ∧
+    (let d := render exMemT ⟨0, [], none, none⟩ (exOfMem exMemLoc exMemT (fun _ => {}))
+     d.objs.all (fun o => objClause "total-memory" d (mkAux d) o && objClause "children-counts" d (mkAux d) o) = true ∧
+     (d.objs.map (·.totalMem)) = [19000, 11000, 0, 0, 5000, 6000, 8000, 8000]) := by decide +kernel
+example : ((objsT (toTree exDc (stage exIn).root)).map (·.gp)).Nodup ∧
+    (((objsT (toTree exDc (stage exIn).root)).filter (fun o => o.type == tPU)).map (·.osidx)).Nodup := by decide +kernel
+
+
+/-! ### the set clauses through level merging -/
+
+/-- **what hwloc_compare_levels_structure requires, and what makes merging harmless for the sets.**  The C condition for merging two
+adjacent levels is purely structural (`sameStructure`: both levels have the same number of objects, every object of the upper level
+has exactly ONE normal child, which is the object of the lower level at the same position, and no memory children if the lower level
+is the PU level); the sets are not looked at.  If every object with exactly one normal child has the cpuset and the nodeset of that
+child (`tightT`: decidable, a consequence of the WF clauses cpuset-is-disjoint-union-of-children and nodeset-decomposition,
+evaluated by the engine on every rm_after tree) and the clauses `SetQ` of the set stage hold everywhere (they do after `remove_empty`:
+C01_pipeline_compose (a)), then after level merging — any filters, both merge branches, the re-sorting of memory children and the final
+re-sorting of children included — every normal / memory object still satisfies
+  set-in-complete, set-in-parent (cpuset, complete_cpuset, nodeset, complete_nodeset; normal and memory children),
+  memory-child-shares-cpuset, normal siblings pairwise disjoint   (`SetW`),
+the single-child property holds again, and the root keeps its cpuset and nodeset. -/
+theorem C01_sets_through_level_merging (filters : List Nat) (t : Tree) (hs : AllQ SetQ t) (ht : tightT t = true) :
+    AllQ SetW (keepStructure filters t) ∧ AllQ (fun o ns _ => TightQ o ns) (keepStructure filters t) ∧
+    (keepStructure filters t).obj.cpuset = t.obj.cpuset ∧ (keepStructure filters t).obj.nodeset = t.obj.nodeset :=
+  setW_keepStructure filters t hs ht
+
+/-- one merge step in isolation (`mergeNode`, the body of both branches of hwloc_filter_levels_keep_structure): the merged subtree keeps the
+clauses, and the object now at its root has the old cpuset and nodeset and complete sets that are not larger -/
+theorem C01_merge_step_sets (rc : Bool) (o : RObj) (ns ms ios mis : List Tree) (h : AllQ WQ (.node o ns ms ios mis)) :
+    AllQ WQ (mergeNode rc o ns ms ios mis) ∧ Rel o (mergeNode rc o ns ms ios mis).obj := WQ_mergeNode rc o ns ms ios mis h
+
+/-- **in the composition**: with `PreSets i` and the single-child hypothesis on the tree `t1` that `remove_empty` leaves, the final tree of
+the pipeline satisfies the set clauses `SetW` at every normal / memory object -/
+theorem C01_pipeline_sets_through_level_merging (i : In) (dc : Deco) (filters : List Nat) (hpre : PreSets i)
+    (t1 : Tree) (h1 : removeEmpty (toTree dc (stage i).root) = some t1) (ht : tightT t1 = true) :
+    pipeline i dc filters = some (keepStructure filters t1) ∧ AllQ SetW (keepStructure filters t1) ∧
+    setWT (keepStructure filters t1) = true ∧
+    (keepStructure filters t1).obj.cpuset = t1.obj.cpuset ∧ (keepStructure filters t1).obj.nodeset = t1.obj.nodeset := by
+  have hs0 : AllQ SetQ (toTree dc (stage i).root) := allQ_toTree dc (fun o k m h => setQ_of_post dc o k m h) _ (stage_post i hpre)
+  have hs1 := removeEmpty_preserves SetQ SetQ_stable _ t1 h1 hs0
+  have h := setW_keepStructure filters t1 hs1 ht
+  exact ⟨by unfold pipeline; rw [h1]; rfl, h.1, (setWT_iff _).2 h.1, h.2.2.1, h.2.2.2⟩
+
+/-- non-vacuity: Machine > Package > 2 Cores > 1 PU each, a NUMA node on the Package; Package and Core filtered KEEP_STRUCTURE: the Package
+is merged into the Machine (the NUMA node moves up) and each Core into its PU; hypotheses and conclusion evaluated -/
+def exKs : Tree := exN 1 tMACHINE 3 1 [exN 2 tPACKAGE 3 1 [exN 3 tCORE 1 1 [exN 4 tPU 1 1 [] [] [] []] [] [] [],
+  exN 5 tCORE 2 1 [exN 6 tPU 2 1 [] [] [] []] [] [] []] [exN 7 tNUMA 3 1 [] [] [] []] [] []] [] [] []
+def exKsFilters : List Nat := [0, 2, 0, 2] ++ List.replicate 16 0
+example : setQT exKs = true ∧ tightT exKs = true ∧ (objsT (keepStructure exKsFilters exKs)).map (·.gp) = [1, 4, 6, 7] ∧
+    setWT (keepStructure exKsFilters exKs) = true := by decide +kernel
+/-- the single-child hypothesis is needed: a Package whose only Core has a smaller cpuset and a NUMA node of its own — the NUMA node
+(cpuset of the Core) lands below the Machine after the merge and no longer shares its parent's cpuset -/
+def exKsBad : Tree := exN 1 tMACHINE 3 1 [exN 2 tPACKAGE 3 1 [exN 3 tCORE 1 1 [exN 4 tPU 1 1 [] [] [] []] [exN 7 tNUMA 1 1 [] [] [] []] [] []] [] [] []] [] [] []
+example : setQT exKsBad = true ∧ tightT exKsBad = false ∧ setWT (keepStructure exKsFilters exKsBad) = false := by decide +kernel
+
+
+/-- **`puLeafT` and the Machine root through level merging** (the two conditional parts of C01_pipeline_compose (b), discharged): if PU and
+Machine are not filtered KEEP_STRUCTURE (hwloc_topology_set_type_filter refuses it), gp_index values are pairwise distinct in the tree
+`t0` handed to `remove_empty`, `t0` is typed with a Machine root and PUs are leaves in the tree `t1` that `remove_empty` leaves, then in the
+final tree PUs are still leaves and the root object is still the one of `t0`; so EVERY object of the rendered dump satisfies
+no-children-where-forbidden, and root-is-machine and level0-is-root hold. -/
+theorem C01_pipeline_pu_leaf_and_root (filters : List Nat) (hdr : Hdr) (ex : RObj → Extra) (t0 t1 : Tree)
+    (hPU : filterOf filters tPU ≠ Hw.Gen.Restrict.filterKeepStructure) (hM : filterOf filters tMACHINE ≠ Hw.Gen.Restrict.filterKeepStructure)
+    (hu : ((objsT t0).map (·.gp)).Nodup) (hty : typedT t0 = true) (hroot : t0.obj.type = tMACHINE)
+    (h1 : removeEmpty t0 = some t1) (hl : puLeafT t1 = true) :
+    puLeafT (keepStructure filters t1) = true ∧ (keepStructure filters t1).obj = t0.obj ∧
+    (∀ o ∈ (render (keepStructure filters t1) hdr ex).objs,
+      objClause "no-children-where-forbidden" (render (keepStructure filters t1) hdr ex) (mkAux (render (keepStructure filters t1) hdr ex)) o = true) ∧
+    topClause "root-is-machine" (render (keepStructure filters t1) hdr ex) (mkAux (render (keepStructure filters t1) hdr ex)) = true ∧
+    topClause "level0-is-root" (render (keepStructure filters t1) hdr ex) (mkAux (render (keepStructure filters t1) hdr ex)) = true := by
+  have ht1 := removeEmpty_typed _ t1 h1 hty
+  have hr1 : t1.obj.type = tMACHINE := by rw [ht1.2, hroot]
+  have hn1 : isNormal t1.obj.type = true := by rw [hr1]; decide
+  have hu1 : ((objsT t1).map (·.gp)).Nodup := gp_nodup_of_cnt _ _ (fun k => cnt_removeEmpty (·.gp) k t0 t1 h1) hu
+  have hk := keepStructure_pu filters hPU t1 (by rw [hr1]; exact hM) hu1 ht1.1 hn1 hl
+  have ht2 := typed_keepStructure filters t1 ht1.1 hn1
+  have hm2 : (keepStructure filters t1).obj.type = tMACHINE := by rw [hk.2.1, hr1]
+  exact ⟨hk.1, hk.2.1.trans ht1.2, fun o ho => render_no_children_where_forbidden _ ht2.1 hk.1 hdr ex o ho,
+    render_root_is_machine _ hm2 hdr ex, render_level0_is_root _ hm2 hdr ex⟩
+
+/-- non-vacuity of C01_pipeline_pu_leaf_and_root on `exKs` (nothing is removed by remove_empty; two levels are merged) -/
+example : filterOf exKsFilters tPU ≠ Hw.Gen.Restrict.filterKeepStructure ∧ filterOf exKsFilters tMACHINE ≠ Hw.Gen.Restrict.filterKeepStructure ∧
+    ((objsT exKs).map (·.gp)).Nodup ∧ typedT exKs = true ∧ exKs.obj.type = tMACHINE ∧ (removeEmpty exKs).map (fun t => puLeafT t) = some true ∧
+    puLeafT (keepStructure exKsFilters exKs) = true := by decide +kernel
+/-- the key hypothesis of C01_pipeline_no_new_object for the keys used here -/
+example : (∀ o co : RObj, (absorb o co).gp = co.gp) ∧ (∀ o co : RObj, tyOs (absorb o co) = tyOs co) := ⟨fun _ _ => rfl, fun _ _ => rfl⟩
+
+/-- **numa-exists for the composed pipeline**: a NUMA node with a non-empty nodeset in the (typed, normal-rooted) tree handed to `remove_empty`
+is neither removed by `remove_empty` nor by level merging, so the NUMA level of the final render is not empty -/
+theorem C01_pipeline_numa_exists (filters : List Nat) (hdr : Hdr) (ex : RObj → Extra) (t0 t1 : Tree) (hty : typedT t0 = true)
+    (hr : isNormal t0.obj.type = true) (h1 : removeEmpty t0 = some t1) (hn : ∃ x ∈ objsNM t0, x.type = tNUMA ∧ x.nodeset ≠ 0) :
+    topClause "numa-exists" (render (keepStructure filters t1) hdr ex) (mkAux (render (keepStructure filters t1) hdr ex)) = true :=
+  pipeline_numa_exists filters hdr ex t0 t1 hty hr h1 hn
+example : typedT exKs = true ∧ isNormal exKs.obj.type = true ∧ (removeEmpty exKs).isSome ∧
+    (∃ x ∈ objsNM exKs, x.type = tNUMA ∧ x.nodeset ≠ 0) := by decide +kernel
 
 end Stages
 
